@@ -104,15 +104,20 @@ def c_tables(contention):
 
 def compare_tables(contention):
     """every entry of every C table against the Python table of the same name -> (entries, mismatches)"""
-    import importlib
-    import skoolkit.simtables as st
-    import skoolkit.cmiosimulator as cm
+    import importlib.util
+    # private, unpatched copies of the Python modules (the worker's skoolkit.simtables may hold formula tables)
+    def fresh(name):
+        spec = importlib.util.spec_from_file_location('verif_fresh_' + name, os.path.join(REPO, 'skoolkit', name + '.py'))
+        mod = importlib.util.module_from_spec(spec)
+        spec.loader.exec_module(mod)
+        return mod
+    st = fresh('simtables')
+    cm = fresh('cmiosimulator') if contention else None
     n, bad = 0, []
     for name, (dims, data) in c_tables(contention).items():
         if name.startswith('DELAYS_'):
             mach = name[7:]
             real = getattr(cm, name)
-            real = real.real if isinstance(real, sh.DelayTable) else real
             for t in range(len(data)):
                 n += 1
                 if data[t] != sh.delay_concrete(mach, t) or (t < len(real) and data[t] != real[t]):
